@@ -1,12 +1,20 @@
-import PprofVerif.Lemmas.Field
-import PprofVerif.Model.Codec
+import PprofVerif.Lemmas.MessagesNested
 /-!
 # C01 — Profile serialization round-trips without loss
 
 Property theorems only (helper lemmas live in `Lemmas/`).  The full statement of the property
-is `decode_encode` in DESIGN.md Appendix D; the theorems below are the parts proved so far, each
-about the executable model in `Model/Wire.lean` / `Model/Codec.lean`, which the correspondence
-check ties to profile/proto.go and profile/encode.go in both directions on every run.
+(DESIGN.md Appendix D) is
+
+    decode_encode : Valid p → UnitsAligned p → parseUncompressed (serialize p) = ok (normalize p)
+
+It factors through the wire-level ("X") message as `unmarshal ∘ encode` and
+`postDecode ∘ preEncode`.  Proved so far, for ALL inputs: the complete wire half
+(`wire_roundtrip`: every field of every message type, packed and unpacked repeated scalars,
+nested messages, optional-field elision, the string-table rule) and its building blocks.
+The `postDecode ∘ preEncode = normalize` half (string interning, label regrouping) is tied by the
+correspondence check only.  All theorems are about the executable model in `Model/Wire.lean` /
+`Model/Codec.lean`, which the correspondence check ties to profile/proto.go and
+profile/encode.go in both directions on every run.
 -/
 namespace PV.Props.C01
 open PV PV.Wire PV.Codec
@@ -30,7 +38,63 @@ theorem delimited_field_roundtrip (tag : Nat) (body : Bytes) (ht : tag * 8 + 2 <
     decodeField (encodeMessage tag body ++ rest) = .ok ({ num := tag, typ := 2, u64 := 0, data := body }, rest) :=
   decodeField_encodeMessage tag body ht hl rest
 
--- non-vacuity: the hypotheses are met by extreme values
+/-- Repeated scalars in packed form (more than two elements) decode to the same list. -/
+theorem packed_roundtrip (xs : List Nat) (hx : ∀ x ∈ xs, x < two64) :
+    decodePacked (xs.flatMap encodeVarint).length (xs.flatMap encodeVarint) = .ok xs :=
+  decodePacked_flatMap xs _ hx (Nat.le_refl _)
+
+/-- The decoding loop never runs out of the fuel the model gives it (the model's only
+artificial failure branch is unreachable), for any bytes and any decoder table. -/
+theorem decode_loop_fuel_independent {M : Type} (apply : M → Field → Outcome M) (m : M) (data : Bytes)
+    (fuel : Nat) (h : data.length ≤ fuel) :
+    decodeLoop apply fuel m data = decodeLoop apply data.length m data :=
+  decodeLoop_eq_decodeAll apply m data fuel h
+
+/-- Sample message: locations, values (packed or not), labels. -/
+theorem sample_wire_roundtrip (s : SampleX) (h : s.WF) : decodeAll SampleX.apply {} s.encode = .ok s :=
+  SampleX.roundtrip s h
+
+/-- Location message with any number of inline lines. -/
+theorem location_wire_roundtrip (l : LocationX) (h : l.WF) : decodeAll LocationX.apply {} l.encode = .ok l :=
+  LocationX.roundtrip l h
+
+/-- Mapping message (ids, ranges, string indices, the four has-symbol flags). -/
+theorem mapping_wire_roundtrip (m : MappingX) (h : m.WF) : decodeAll MappingX.apply {} m.encode = .ok m :=
+  MappingX.roundtrip m h
+
+/-- Function message. -/
+theorem function_wire_roundtrip (f : FunctionX) (h : f.WF) : decodeAll FunctionX.apply {} f.encode = .ok f :=
+  FunctionX.roundtrip f h
+
+/-- **Wire half of C01.** For every wire-level profile message whose integers fit their Go
+types (`WF`) and whose length-delimited bodies are shorter than 2^64 bytes (`Sized`):
+`unmarshal (encode x) = x`, the only change being that an all-zero `PeriodType` is elided
+(the decoder then leaves the pointer nil; `postDecode` restores the empty value type). -/
+theorem wire_roundtrip (x : ProfileX) (h : x.WF) (hs : x.Sized) :
+    unmarshal x.encode = .ok { x with periodType := normPT x.periodType } :=
+  unmarshal_encode x h hs
+
+/-- … and the wire image re-encodes to the very same bytes (re-serialization fixpoint at the
+wire level). -/
+theorem wire_reencode_identical (x : ProfileX) :
+    ({ x with periodType := normPT x.periodType } : ProfileX).encode = x.encode := by
+  cases x with
+  | mk st s m l f tab df kf tn dn pt p c dst doc =>
+    cases pt with
+    | none => rfl
+    | some v =>
+      by_cases hv : v.typeX ≠ 0 ∨ v.unitX ≠ 0
+      · simp [normPT, hv]
+      · simp [normPT, hv, ProfileX.encode]
+
+-- non-vacuity: the hypotheses are met by extreme values and by a non-trivial message
 example : InI64 (-9223372036854775808) ∧ (18446744073709551615 : Nat) < two64 := by decide
+example : (⟨18446744073709551615, 0, 1, 4096, -9223372036854775808, 7, true, false, true, false⟩ : MappingX).WF := by
+  unfold MappingX.WF; decide
+example : (⟨[1, 300, 3], [-1, 0, 7], [⟨1, 2, 0, 0⟩]⟩ : SampleX).WF := by
+  refine ⟨by decide, by decide, ?_, by simp [encodeVarint, two64], by simp [encodeVarint, two64, toU64], ?_⟩
+  · intro l hl; simp at hl; subst hl; unfold LabelX.WF; decide
+  · intro l hl; simp at hl; subst hl
+    simp [LabelX.encode, encodeInt64Opt, encodeInt64, encodeUint64, encodeVarint, two64, toU64]
 
 end PV.Props.C01
